@@ -8,11 +8,10 @@ patch = os.path.join(V, "seeded", name, "patch.diff")
 st = subprocess.run(["git", "-C", "/repo", "status", "--porcelain"], capture_output=True, text=True).stdout.strip()
 if st:
     sys.exit("refusing: /repo is not clean:\n" + st)
-r = subprocess.run(["git", "-C", "/repo", "apply", "--3way", patch], capture_output=True, text=True)
+r = subprocess.run(["git", "-C", "/repo", "apply", "--check", patch], capture_output=True, text=True)
 if r.returncode != 0:
-    r = subprocess.run(["git", "-C", "/repo", "apply", patch], capture_output=True, text=True)
-    if r.returncode != 0:
-        sys.exit("patch does not apply: " + r.stderr)
+    sys.exit("patch does not apply: " + r.stderr)
+subprocess.run(["git", "-C", "/repo", "apply", patch], check=True)
 try:
     for i in ids:
         p = subprocess.run([sys.executable, os.path.join(V, "run", "check.py"), i, "--tier", "quick"],
